@@ -168,6 +168,12 @@ func pairsMain(args []string) {
 			defer w.restart()
 			for cs := range jobs {
 				r := w.runPair(cs)
+				// (an "error" is a hiccup of the infrastructure - a child that did not come up, a port still in use: the
+				// case is run again; if it persists it stays an error and the check is inconclusive)
+				for try := 0; try < 2 && r["status"] == "error"; try++ {
+					time.Sleep(100 * time.Millisecond)
+					r = w.runPair(cs)
+				}
 				b, _ := json.Marshal(r)
 				omu.Lock()
 				ow.Write(b)
